@@ -41,7 +41,13 @@ const (
 	fEmptyRoundTrip = "empty-mask-json"
 	fStrKeyJSON     = "strkey-json-escape"
 	fStringTypedef  = "string-typedef"
+	fFieldNonStruct = "field-on-container-mask"
+	fStringNested   = "string-star-nested-container"
 )
+
+// skipString in maskCase.Skip: String() is not called (it walks every field of
+// every struct it prints, so two known findings reach it)
+const skipString = "String()"
 
 func TestMain(m *testing.M) { vt.Main(m) }
 
@@ -405,7 +411,7 @@ func judgeMask(c maskCase) error {
 			}
 		}
 	}
-	if !has(c.Skip, fStringTypedef) {
+	if !has(c.Skip, skipString) {
 		if e := guard("String", func() { _ = m.String(desc) }); e != nil {
 			return fmt.Errorf("paths %q: %v", c.Paths, e)
 		}
@@ -588,7 +594,7 @@ func explore(a, b *fieldmask.FieldMask, ints []int, strs []string, skip []string
 	}
 	var keys []qkey
 	for _, i := range ints {
-		if i >= -32768 && i <= 32767 {
+		if i >= -32768 && i <= 32767 && !(has(skip, fFieldNonStruct) && a.Type() != fieldmask.FtStruct && !a.All()) {
 			keys = append(keys, qkey{K: "f", I: i})
 		}
 		keys = append(keys, qkey{K: "i", I: i})
@@ -802,7 +808,7 @@ func FuzzPath(f *testing.F) {
 				return
 			}
 		}
-		c := maskCase{IDL: idl, Root: "S", Black: black, Mode: "soup", Paths: paths, Skip: judgeSkips(k, true)}
+		c := maskCase{IDL: idl, Root: "S", Black: black, Mode: "soup", Paths: paths, Skip: judgeSkips(k, skipFacts{typedefs: true, starNested: strings.Contains(in, "*")})}
 		for _, p := range paths {
 			if !(k[fGetPathStar] && strings.Contains(p, ".*")) {
 				c.PathQs = append(c.PathQs, pathQ{Path: p, Exp: -1})
@@ -824,7 +830,7 @@ func FuzzMaskJSON(f *testing.F) {
 		if knownDocShape(doc, k) != "" {
 			return
 		}
-		c := jsonCase{Class: "native_fuzz", Doc: doc, Skip: judgeSkips(k, true)}
+		c := jsonCase{Class: "native_fuzz", Doc: doc, Skip: judgeSkips(k, skipFacts{})}
 		if err := judgeJSON(c); err != nil {
 			vt.Fail(t, prop, "json", c, "%v", err)
 		}
